@@ -46,12 +46,14 @@ var reconfEvents = []string{
 	"Frame{bare Interest}",
 	"Frame{undecodable: bare Interest cut one byte short}",
 	"Lp{Seq=11 FragIndex=1 FragCount=- Fragment=Interest[:half]}",
+	"Frame{two top-level TLVs: bare Interest + Lp{IDLE}}",
+	"Frame{two top-level TLVs: bare Data + Lp{Seq=1001 FragIndex=1 FragCount=2 Fragment=Interest[half:]}}",
 }
 
 const reconfSetters = 6 // events [0,reconfSetters) are setter calls, the rest frames
 
-// reconfDepth: quick enumerates every history of up to 4 events (41 370 per configuration, 2
-// threads on a non-local and a local face), thorough every history of up to 5 events (579 194 per
+// reconfDepth: quick enumerates every history of up to 4 events (69 904 per configuration, 2
+// threads on a non-local and a local face), thorough every history of up to 5 events (1 118 480 per
 // configuration, all six thread-count / scope configurations).
 func reconfDepth() int {
 	if v := os.Getenv("VERIF_C04_RECONF_DEPTH"); v != "" { // development aid
@@ -146,6 +148,10 @@ func reconfFrame(n, e int) []byte {
 		}
 		seq, fi := uint64(11), uint64(1)
 		b = generated[lpPktIdx].Encode(&spec.Packet{LpPacket: &spec.LpPacket{Sequence: &seq, FragIndex: &fi, Fragment: enc.Wire{seedInterestMin[:half]}}})
+	case 14: // one frame, two top-level TLVs (a transport that delivers whole messages does not split them)
+		b = append(append([]byte{}, seedInterestMin...), 0x64, 0x00)
+	case 15:
+		b = append(append([]byte{}, seedDataMin...), lpMk(1001, 1, 2, seedInterestMin[half:])...)
 	}
 	c[e] = b
 	return b
